@@ -218,6 +218,12 @@ def boundary_exprs(tier, dims=(1, 2, 3)):
     return dedupe(out)
 
 
+def lowdim_unions(tier):
+    """unions whose operands have a lower dimension than their space (lines, end points, points)"""
+    return [U(B(C1), B(SLP)), U(B(C_MOVE), B(FAR_P)), U(BL(I_MOVE), BR(I_GROW)),
+            U(Pt([0.3, 0.4]), Pt([aff(2.0, t=1), -0.5])), U(B(S2), B(M_TET))]
+
+
 def default_exprs(tier):
     """shape functions that DECLARE a default for a variable which the parameter rows nevertheless supply (with other
     values): the supplied value wins, row by row.  Kept out of solids(): `necessary_variables` of such a domain does
